@@ -145,3 +145,33 @@ Proof.
       constructor; [lia|]. destruct s1 as [|d s2]; [constructor|]. cbn [length] in Hl. destruct (d =? 10); apply IH; cbn [length]; lia. }
   apply (G (length s)). lia.
 Qed.
+(* no break-out on the plain-text lexer: for ANY content the literal is consumed exactly, or it is a bad string *)
+Lemma s_scan_quote_string_any ulower s rest :
+  no_cr (quote_string s ++ rest) -> canon (quote_string s ++ rest) ->
+  s_scan ulower (quote_string s ++ rest) = ((STRING, s), rest) \/ fst (fst (s_scan ulower (quote_string s ++ rest))) = BADSTRING.
+Proof.
+  intros Hcr Hc. set (src := quote_string s ++ rest) in *.
+  destruct (scan_quote_string_any ulower s rest (new_reader src) (wf_new _) eq_refl) as (tok & p & lit & r' & E & HH).
+  destruct HH as [(Et & El & Hw & Hs)|Et]; [subst tok lit|subst tok].
+  - left. apply (stream_of_ring ulower src STRING p s r' rest); try assumption.
+    + apply (canon_app_r (quote_string s) rest). exact Hc.
+    + unfold src in Hcr. apply Forall_app in Hcr. tauto.
+  - right. pose proof (at_new src) as H0. rewrite (fold_cr_id src Hcr) in H0. rewrite Hc in H0.
+    destruct (ref_scan src ulower (new_reader src) src H0 ltac:(cbn; lia)) as (A & _). rewrite E in A. unfold tl_of in A. cbn [fst snd] in A. rewrite <- A. reflexivity.
+Qed.
+
+Theorem quote_string_any_anywhere T ulower r s rest :
+  no_cr T -> at_ T r (quote_string s ++ rest) -> r_n r <= 2 ->
+  exists tok p lit r', scan ulower r = ((tok, p, lit), r') /\ ((tok = STRING /\ lit = s /\ at_ T r' rest) \/ tok = BADSTRING).
+Proof.
+  intros HT Hat Hn.
+  assert (Hc : canon (quote_string s ++ rest)) by (destruct Hat as (k & _ & Et & _); rewrite Et; apply canon_strip).
+  assert (Hcr : no_cr (quote_string s ++ rest)).
+  { destruct Hat as (k & _ & Et & _). rewrite Et. apply no_cr_strip_skipn. exact HT. }
+  destruct (ref_scan T ulower r _ Hat Hn) as (A & B & _).
+  destruct (scan ulower r) as [[[tok p] lit] r']. cbn [fst snd] in A, B. unfold tl_of in A. cbn [fst snd] in A.
+  exists tok, p, lit, r'. split; [reflexivity|].
+  destruct (s_scan_quote_string_any ulower s rest Hcr Hc) as [E|E].
+  - rewrite E in A, B. cbn [fst snd] in A, B. inversion A; subst. left. repeat split. exact B.
+  - right. rewrite <- A in E. exact E.
+Qed.
